@@ -17,7 +17,8 @@ RULE = (
     "on a real Router by its canonical path; in every state EVERY device-originated send (17 kinds incl. setBLOBVector, the "
     "getProperties relay and <message>) x device name {A, B, none} x sender {each device, each client, none} is compared with the "
     "reference router, and every mutating op (unregister, register, re-register, enableBLOB(client, device, value)) is applied to a "
-    "fresh copy of the state, the router's public state compared with the model and a representative send set re-observed. "
+    "fresh copy of the state - once untouched and once after it has routed a representative set of sends ('warm') -, the router's "
+    "public state compared with the model and the representative send set re-observed. "
     "'history': Hypothesis histories (<= 40 ops, <= 6 clients) of register/unregister/enableBLOB/device-send. Non-trivial: a send "
     "observed while >= 2 registered clients hold different policies for the message's device, or a policy for another "
     "device/client is present (independence). Exhaustive sends are distinct by construction; histories by canonical JSON."
@@ -89,9 +90,16 @@ def check_state(case):
             n_eval += 1
             n_nt += _nontrivial_send(state, d)
     muts = list(mutations(state)) if only is None else ([only["mut"]] if only.get("phase") == "mut" else [])
-    for mut in muts:
+    for mut, warm in [(m, wm) for m in muts for wm in ((False, True) if only is None else (bool(only.get("warm")),))]:
         w2 = build_state(state)
         try:
+            if warm:
+                # the same state after it has already routed traffic of every observed kind (anything the router
+                # remembers about earlier deliveries must not outlive the policy change)
+                for k in OBS_KINDS:
+                    for d in (0, 1, 2):
+                        w2.apply({"op": "send", "kind": k, "dev": d, "sender": nsender - 1})
+                        n_eval += 1
             for op in mut:
                 w2.apply(op)
             for k in OBS_KINDS:
@@ -100,7 +108,7 @@ def check_state(case):
                         w2.apply({"op": "send", "kind": k, "dev": d, "sender": s})
                         n_eval += 1
         except Failure as f:
-            f.min_case = {"state": state, "only": {"phase": "mut", "mut": mut}}
+            f.min_case = {"state": state, "only": {"phase": "mut", "mut": mut, "warm": warm}}
             raise
         n_nt += 1
     regs = sum(1 for s in state if s is not None)
